@@ -73,10 +73,13 @@ PROPS = {
                     'otherwise the vector whose i-th element is the value of the i-th comma-separated piece is front-pushed at the open list; "(" pushes an empty list there and opens it (depth+1); ")" closes it (depth-1, ignored at depth 0); '
                     'any other token becomes exactly one item, classified in the documented order registered instruction / integer / float / TRUE / FALSE / name, front-pushed at the open list, depth unchanged. '
                     'WHOLE INPUT: parse_program ensures tokens_effect(str_words(code), EXEC before, 0, EXEC after, d): the per-token effects applied to the words of the input in their order, starting at depth 0 (loop invariant over the words already consumed; no token is skipped, repeated or reordered). '
+                    'TREE (lemma over these contracts, induction over token trees): theorem_balanced_program_builds_its_tree -- for every forest f of trees (word | parenthesised group) whose words are not parentheses '
+                    'and whose vector literals are well formed, tokens_effect(render_all(f), a, 0, b, d) implies d == 0 and b == new + a with forest_match(f, new): same nesting, same order with the first token on top, every word classified. '
                     'The str operations are read through the R15 wrappers (bodies = the original expressions): starts_with is the prefix relation, `&s[k..]` drops k characters after an ASCII prefix, strip_suffix removes the suffix; '
                     'what split_whitespace yields, what split(",") yields and what parses as i32 / f32 are uninterpreted functions of the characters',
-        not_decided=['whole-tree isomorphism parse(render(t)) == t: it needs the meaning of split_whitespace over a rendered program (which substrings are the tokens), which no installed verifier can reason about '
-                     '(Verus: no str content reasoning; Kani on parse_program with 3 symbolic bytes did not finish in 10 minutes). What IS decided is the per-token step (classification, position, depth) from which the tree is built',
+        not_decided=['the last link of parse(render(t)) == t: that split_whitespace applied to the TEXT of a rendered program yields the token sequence render_all(t) '
+                     '(which substrings are the words: no installed verifier can reason about str contents; Kani on parse_program with 3 symbolic bytes did not finish in 10 minutes). '
+                     'Decided is everything from the word sequence on: per-token step, the fold over all words, and the theorem that a balanced forest of words builds exactly its tree',
                      'which strings std parses as i32 / f32 (uninterpreted)'],
         assumptions=['R15 (std documentation of the str methods, assumed as wrapper contracts): `s.starts_with(p)` is the prefix relation and, for an ASCII literal p, byte offset |p| is character offset |p| (so `&s[|p|..]` cannot panic and drops |p| characters); '
                      '`strip_suffix(p)` removes the suffix p if present; `split(p)` and `parse` are pure functions of the characters; a string in memory has fewer than 2^64 whitespace-separated tokens; '
